@@ -14,6 +14,9 @@ import GscribModel.Drv.SocketSrc
 import GscribModel.Drv.ReportSrc
 import GscribModel.Drv.BoundsSrc
 import GscribModel.Drv.HookSrc
+import GscribModel.Drv.WritersSrc
+import GscribModel.Drv.TracerSrc
+import GscribModel.Drv.FormatSrc
 /-! Line-protocol driver: `driver <mode>` (or `lake env lean --run Driver.lean <mode>`) reads one
     case/operation per line on stdin and prints exactly one record per line (`bad-op …` for an
     unparsable line).  Each mode lives in `GscribModel/Drv/<Mode>.lean`. -/
@@ -37,4 +40,7 @@ def main (args : List String) : IO UInt32 := do
   | ["reportsrc"] => ReportSrcDrv.main; return 0
   | ["bounds"] => BoundsSrcDrv.main; return 0
   | ["hook"] => HookSrcDrv.main; return 0
+  | ["writerssrc"] => WritersSrcDrv.main; return 0
+  | ["tracersrc"] => TracerSrcDrv.main; return 0
+  | ["formatsrc"] => FormatSrcDrv.main; return 0
   | _ => IO.eprintln s!"unknown mode {args}"; return 2
